@@ -55,19 +55,22 @@ let outcome_str = function
                                          | CrNilCallee -> "nilcallee" | CrNoBoundVars -> "noboundvars" | CrUnhandled -> "unhandled")
 
 let () =
-  let fresh = ref false and sat = ref false and fuel = ref 2000000 in
+  let fresh = ref false and sat = ref false and fuel = ref 2000000 and ft = ref false and fc = ref false and novar = ref false in
   let args = Array.to_list Sys.argv in
   let rec pa = function
     | "-fresh" :: r -> fresh := true; pa r
     | "-sat" :: r -> sat := true; pa r
     | "-perm" :: s :: r -> perm := int_of_string s; lcg := (int_of_string s) lor 1; pa r
     | "-fuel" :: s :: r -> fuel := int_of_string s; pa r
+    | "-fix-tuple" :: r -> ft := true; pa r
+    | "-fix-ctrace" :: r -> fc := true; pa r
+    | "-no-variants" :: r -> novar := true; pa r
     | _ :: r -> pa r
     | [] -> () in
   pa (List.tl args);
   let fuel_n = nat_of_int !fuel in
   let nodes = ref PositiveMap.Leaf and graphs = ref PositiveMap.Leaf and globals = ref PositiveMap.Leaf in
-  let entries = ref [] and itraces = ref [] and cfg = ref { on_demand = false; max_depth = None; skip_bound_labels = false } in
+  let entries = ref [] and itraces = ref [] and cfg = ref { on_demand = false; max_depth = None; skip_bound_labels = false; fix_tuple = false; fix_ctrace = false } in
   let satm = ref PositiveMap.Leaf in
   let events = ref [] in
   let reset () = nodes := PositiveMap.Leaf; graphs := PositiveMap.Leaf; globals := PositiveMap.Leaf; entries := [];
@@ -135,7 +138,9 @@ let () =
       List.iter (fun t -> Printf.printf "S %d %s\n" e t) (List.sort compare silents);
       Printf.printf "V %d %s\n" e (String.concat "," (List.map string_of_int (List.sort_uniq compare vs))) in
     if List.exists (fun (c, _) -> c = 'B') evs && not !fresh && not !sat && !perm = 0 then begin
-      (* replay: the visits in the order the implementation made them, candidates ordered as the implementation added them *)
+      (* replay: the visits in the order the implementation made them, candidates ordered as the implementation added them.
+         The pinned model is tried first; when it does not stay in sync, the model with the repairs switched on is tried
+         (fix_tuple / fix_ctrace), so that a repaired implementation is still tied to a model the theorems cover. *)
       let segs = ref [] and cur = ref None in
       List.iter (fun (c, id) ->
           if c = 'B' then begin
@@ -144,29 +149,53 @@ let () =
           end else (match !cur with Some (a, l) -> cur := Some (a, id :: l) | None -> ())) evs;
       (match !cur with Some (a, l) -> segs := (a, Array.of_list (List.rev l)) :: !segs | None -> ());
       let segs = List.rev !segs in
-      let pei = ref PositiveMap.Leaf in
-      let acc : (int, (string list * int * string list * string list * int list)) Hashtbl.t = Hashtbl.create 16 in
-      let order = ref [] in
-      List.iter (fun (a, ev) ->
-          let (s, o) = back (oracle_of ev) g !cfg fuel_n !pei (pos_of_int a) in
-          pei := s.pei;
-          let adds = Array.of_list (List.rev_map (fun (((n, _), _), _) -> int_of_pos n) s.seen) in
-          let sync =
-            if adds = ev then "sync" else begin
-              let i = ref 0 in
-              while !i < Array.length adds && !i < Array.length ev && adds.(!i) = ev.(!i) do incr i done;
-              Printf.sprintf "DIVERGE@%d/%d/%d" !i (Array.length adds) (Array.length ev)
-            end in
-          Printf.printf "Q %d %s %s\n" a (outcome_str o) sync;
-          gaps_out a s;
-          let (outs, nv, tr, si, vs) = (try Hashtbl.find acc a with Not_found -> order := a :: !order; ([], 0, [], [], [])) in
-          let addu l x = if List.mem x l then l else l @ [x] in
-          let tr = List.fold_left addu tr (List.rev_map str_ids s.traces) in
-          let si = List.fold_left addu si (List.rev_map str_ids s.silent) in
-          Hashtbl.replace acc a (addu outs (outcome_str o), nv + List.length s.visited, tr, si,
-                                 List.rev_append (List.map (fun v -> int_of_pos v.v_node) s.visited) vs)) segs;
-      List.iter (fun a -> let (outs, nv, tr, si, vs) = Hashtbl.find acc a in
-                  report a (String.concat "+" outs) nv tr si vs) (List.sort compare !order);
+      let replay (cf : config) =
+        let out = Buffer.create 65536 in
+        let allsync = ref true in
+        let pei = ref PositiveMap.Leaf in
+        let acc : (int, (string list * int * string list * string list * int list)) Hashtbl.t = Hashtbl.create 16 in
+        let order = ref [] in
+        List.iter (fun (a, ev) ->
+            let (s, o) = back (oracle_of ev) g cf fuel_n !pei (pos_of_int a) in
+            pei := s.pei;
+            let adds = Array.of_list (List.rev_map (fun (((n, _), _), _) -> int_of_pos n) s.seen) in
+            let sync =
+              if adds = ev then "sync" else begin
+                allsync := false;
+                let i = ref 0 in
+                while !i < Array.length adds && !i < Array.length ev && adds.(!i) = ev.(!i) do incr i done;
+                Printf.sprintf "DIVERGE@%d/%d/%d" !i (Array.length adds) (Array.length ev)
+              end in
+            Buffer.add_string out (Printf.sprintf "Q %d %s %s\n" a (outcome_str o) sync);
+            let gs = run_gaps g cf s in
+            let l = List.sort_uniq compare (List.map (fun (v, c) -> (int_of_pos v.v_node, int_of_pos c.c_node)) gs) in
+            Buffer.add_string out (Printf.sprintf "H %d closed=%d gaps=%d\n" a (if closed_runb g cf s then 1 else 0) (List.length l));
+            List.iter (fun (x, y) -> Buffer.add_string out (Printf.sprintf "GAP %d %d %d\n" a x y)) l;
+            let (outs, nv, tr, si, vs) = (try Hashtbl.find acc a with Not_found -> order := a :: !order; ([], 0, [], [], [])) in
+            let addu l x = if List.mem x l then l else l @ [x] in
+            let tr = List.fold_left addu tr (List.rev_map str_ids s.traces) in
+            let si = List.fold_left addu si (List.rev_map str_ids s.silent) in
+            Hashtbl.replace acc a (addu outs (outcome_str o), nv + List.length s.visited, tr, si,
+                                   List.rev_append (List.map (fun v -> int_of_pos v.v_node) s.visited) vs)) segs;
+        (out, !allsync, acc, List.sort compare !order) in
+      let variants = if !novar then [(!ft, !fc)] else [(!ft, !fc); (true, !fc); (!ft, true); (true, true)] in
+      let variants = List.sort_uniq compare variants in
+      let variants = (!ft, !fc) :: List.filter (fun v -> v <> (!ft, !fc)) variants in
+      let rec try_variants = function
+        | [] -> None
+        | (a, b) :: rest ->
+          let cf = { !cfg with fix_tuple = a; fix_ctrace = b } in
+          let (out, ok, acc, order) = replay cf in
+          if ok then Some ((a, b), cf, out, acc, order)
+          else (match try_variants rest with Some r -> Some r | None -> if (a, b) = (!ft, !fc) then Some ((a, b), cf, out, acc, order) else None) in
+      (match try_variants variants with
+       | Some ((a, b), cf, out, acc, order) ->
+         Printf.printf "VARIANT fix_tuple=%d fix_ctrace=%d\n" (if a then 1 else 0) (if b then 1 else 0);
+         cfg := cf;
+         print_string (Buffer.contents out);
+         List.iter (fun a -> let (outs, nv, tr, si, vs) = Hashtbl.find acc a in
+                     report a (String.concat "+" outs) nv tr si vs) order
+       | None -> ());
       check_traces ();
       print_string "END\n"
     end else begin
@@ -192,7 +221,7 @@ let () =
          | "CFG" :: od :: md :: sb :: _ ->
            let m = int_of_string md in
            cfg := { on_demand = (od = "1"); max_depth = (if m > 0 then Some (nat_of_int m) else None);
-                    skip_bound_labels = (sb = "1") }
+                    skip_bound_labels = (sb = "1"); fix_tuple = !ft; fix_ctrace = !fc }
          | "G" :: gid :: cons :: ps :: fvs :: rets :: css :: rcs :: _ ->
            let opt l = List.map (fun i -> if i = 0 then None else Some (pos_of_int i)) l in
            let sg = { g_constructed = (cons = "1"); g_params = opt (ids ps); g_freevars = opt (ids fvs);
